@@ -123,6 +123,28 @@ fn main() {
                 }
                 writeln!(out, "M {} {}", mon::hex(&gen::render_random(&sa.tokens(), &mut r)), mon::hex(&gen::render_random(&sb.tokens(), &mut r))).unwrap();
             }
+            // comparison pairs over the CLDR likely-subtags corpus: key vs value, value vs key, and the key
+            // against the value carrying another script / region (identifiers the data tables know about)
+            if let Ok(lk) = vmon::likely::Likely::load() {
+                for (i, (k, v)) in lk.entries.iter().enumerate() {
+                    if !quick || i % 2 == 0 || k.matches('-').count() >= 1 {
+                        writeln!(out, "M {} {}", mon::hex(k.as_bytes()), mon::hex(v.as_bytes())).unwrap();
+                        writeln!(out, "M {} {}", mon::hex(v.as_bytes()), mon::hex(k.as_bytes())).unwrap();
+                    }
+                    let vp: Vec<&str> = v.split('-').collect();
+                    if vp.len() == 3 && k.matches('-').count() >= 1 {
+                        for alt in ["Latn", "Cyrl", "Arab", "Hans", "Hant"] {
+                            if alt != vp[1] {
+                                let other = format!("{}-{}-{}", vp[0], alt, vp[2]);
+                                writeln!(out, "M {} {}", mon::hex(k.as_bytes()), mon::hex(other.as_bytes())).unwrap();
+                                break;
+                            }
+                        }
+                        let other = format!("{}-{}", vp[0], vp[1]);
+                        writeln!(out, "M {} {}", mon::hex(k.as_bytes()), mon::hex(other.as_bytes())).unwrap();
+                    }
+                }
+            }
         }
         Some("shrink") => {
             // vmon shrink <engine> <clause> <hex>: minimise a failing byte case for one clause
